@@ -503,6 +503,21 @@ def parse_mir(path, want=None):
             i += 1
             continue
         pm = re.match(r"^const (.*::promoted\[\d+\]): (.*) = \{$", line) if line.startswith("const ") else None
+        nm = re.match(r"^const ([\w:]+): (.*) = \{$", line) if (line.startswith("const ") and not pm) else None
+        if nm and not nm.group(1).endswith("::_"):
+            # a named constant computed by a body (`const TOL: f64 = { _0 = Mul(const 4f64, const EPSILON); }`)
+            cur = MirFn(nm.group(1), [], nm.group(2), i + 1)
+            cur.is_named_const = True
+            cur.const_literal = None
+            fns.append(cur)
+            j = i + 1
+            while j < n and lines[j] != "}":
+                j += 1
+            body = lines[i:j + 1]
+            cur.text_hash = hashlib.sha256("\n".join(body).encode()).hexdigest()[:16]
+            cur._body = body
+            i = j + 1
+            continue
         if pm:
             # a promoted constant (`&CONST` lifted by rustc): a parameterless body
             cur = MirFn(pm.group(1), [], pm.group(2), i + 1)
